@@ -4,6 +4,7 @@ import (
 	"fmt"
 	"go/ast"
 	"go/token"
+	"go/types"
 	"os"
 	"path/filepath"
 	"strings"
@@ -21,6 +22,7 @@ func extra(repo, out string, root, helpers *pkgFiles) {
 		genEntryFacts(out, root)
 		genCacheFacts(out, root)
 		genMergeFacts(out, root)
+		genParseFacts(repo, out, root)
 		if helpers != nil {
 			genPurity(out, root, helpers)
 			genLocks(out, root, helpers)
@@ -532,4 +534,91 @@ func genMergeFacts(out string, root *pkgFiles) {
 	rep.Facts["merge.render"] = strings.Join(renderOrder, ",")
 	sb.WriteString("/-- order of the merge loops (earlier = lower precedence) in loadConfig, template.Fill and Vue.Render/mergeFrontMatter -/\n")
 	sb.WriteString("def mergeCfg : MergeCfg := { loadConfig := [" + strings.Join(cfgOrder, ", ") + "], fill := [" + strings.Join(fillOrder, ", ") + "], render := [" + strings.Join(renderOrder, ", ") + "] }\n\n")
+}
+
+// genParseFacts: (1) how ParseTemplateBytes tells a full document from a fragment; (2) what the compiled-expression cache is keyed by and
+// what the compilation reads: a memo table is only sound when its key holds everything the memoised computation depends on.
+func genParseFacts(repo, out string, root *pkgFiles) {
+	var sb strings.Builder
+	sb.WriteString("namespace Vuego.Generated\n\n")
+	defer func() {
+		sb.WriteString("\nend Vuego.Generated\n")
+		writeFile(out, "Parse.lean", sb.String())
+	}()
+	rule := ""
+	if ip, err := parseDir(filepath.Join(repo, "internal/parser")); err == nil {
+		if fd := ip.fn("ParseTemplateBytes"); fd != nil {
+			for _, st := range fd.Body.List {
+				if is, ok := st.(*ast.IfStmt); ok && is.Init == nil {
+					// the first `if` whose body parses a whole document
+					if containsCall(is.Body, "html.Parse") {
+						rule = types.ExprString(is.Cond)
+						break
+					}
+				}
+			}
+		} else {
+			fail("parse", fmt.Errorf("parser.ParseTemplateBytes not found"))
+		}
+	} else {
+		fail("parse internal/parser", err)
+	}
+	fmt.Fprintf(&sb, "/-- the condition under which ParseTemplateBytes parses its input as a full document -/\ndef documentRule : String := %s\n", leanString(rule))
+	rep.Facts["documentRule"] = rule
+
+	// getProgram: parameters, the key of every store into e.programs, the identifiers the expr.Compile call reads
+	var params, keys, reads []string
+	if fd := root.method("ExprEvaluator", "getProgram"); fd != nil {
+		for _, f := range fd.Type.Params.List {
+			for _, n := range f.Names {
+				params = append(params, n.Name)
+			}
+		}
+		ast.Inspect(fd.Body, func(n ast.Node) bool {
+			switch x := n.(type) {
+			case *ast.AssignStmt:
+				for _, l := range x.Lhs {
+					if ix, ok := l.(*ast.IndexExpr); ok && strings.HasSuffix(exprString(ix.X), ".programs") {
+						keys = append(keys, exprString(ix.Index))
+					}
+				}
+			case *ast.CallExpr:
+				if exprString(x.Fun) == "expr.Compile" {
+					seen := map[string]bool{}
+					for _, a := range x.Args {
+						ast.Inspect(a, func(m ast.Node) bool {
+							switch y := m.(type) {
+							case *ast.SelectorExpr:
+								if id, ok := y.X.(*ast.Ident); ok && id.Name == "expr" {
+									return false // a function of the expr package itself
+								}
+							case *ast.Ident:
+								if !seen[y.Name] {
+									seen[y.Name] = true
+									reads = append(reads, y.Name)
+								}
+							}
+							return true
+						})
+					}
+				}
+			}
+			return true
+		})
+	} else {
+		fail("parse", fmt.Errorf("ExprEvaluator.getProgram not found"))
+	}
+	list := func(xs []string) string {
+		var q []string
+		for _, x := range xs {
+			q = append(q, leanString(x))
+		}
+		return "[" + strings.Join(q, ", ") + "]"
+	}
+	fmt.Fprintf(&sb, "/-- parameters of ExprEvaluator.getProgram -/\ndef programParams : List String := %s\n", list(params))
+	fmt.Fprintf(&sb, "/-- the key of every store into the compiled-program cache -/\ndef programCacheKeys : List String := %s\n", list(keys))
+	fmt.Fprintf(&sb, "/-- the identifiers the expr.Compile call reads (functions of the expr package aside) -/\ndef programCompileReads : List String := %s\n", list(reads))
+	rep.Facts["programParams"] = list(params)
+	rep.Facts["programCacheKeys"] = list(keys)
+	rep.Facts["programCompileReads"] = list(reads)
 }
